@@ -262,6 +262,17 @@ impl Model {
         }
     }
 
+    /// Response of an accepted module message: the stub's (a function of the message), or the empty
+    /// response of the repo's accepting modules.
+    fn stub_resp(&self, kind: &str, payload: &str) -> MResp {
+        if self.module_cfg_of(kind) == 0 {
+            let (events, data) = crate::world::stub_response(kind, payload);
+            MResp { events, data }
+        } else {
+            MResp::default()
+        }
+    }
+
     fn module_call(&mut self, kind: &str, sender: &str, payload: String) -> Result<u32, ()> {
         self.module_calls.push(ModCall { kind: kind.to_string(), sender: sender.to_string(), payload });
         let c = self.call_counts.entry(kind.to_string()).or_insert(0);
@@ -563,24 +574,29 @@ impl Model {
                 self.set_admin(sender, contract, None)
             }
             CMsg::Custom { tag } => {
-                self.module_call("custom", sender, tag.clone())?;
-                Ok(MResp::default())
+                let payload = tag.clone();
+                self.module_call("custom", sender, payload.clone())?;
+                Ok(self.stub_resp("custom", &payload))
             }
             CMsg::Ibc { tag } => {
-                self.module_call("ibc", sender, tag.clone())?;
-                Ok(MResp::default())
+                let payload = tag.clone();
+                self.module_call("ibc", sender, payload.clone())?;
+                Ok(self.stub_resp("ibc", &payload))
             }
             CMsg::Gov { n } => {
-                self.module_call("gov", sender, n.to_string())?;
-                Ok(MResp::default())
+                let payload = n.to_string();
+                self.module_call("gov", sender, payload.clone())?;
+                Ok(self.stub_resp("gov", &payload))
             }
             CMsg::Stargate { tag, value } => {
-                self.module_call("stargate", sender, format!("{}:{}", tag, hex(value)))?;
-                Ok(MResp::default())
+                let payload = format!("{}:{}", tag, hex(value));
+                self.module_call("stargate", sender, payload.clone())?;
+                Ok(self.stub_resp("stargate", &payload))
             }
             CMsg::Any { tag, value } => {
-                self.module_call("any", sender, format!("{}:{}", tag, hex(value)))?;
-                Ok(MResp::default())
+                let payload = format!("{}:{}", tag, hex(value));
+                self.module_call("any", sender, payload.clone())?;
+                Ok(self.stub_resp("any", &payload))
             }
             CMsg::Delegate { validator, coin } => self.delegate(sender, validator, coin),
             CMsg::Undelegate { validator, coin } => self.undelegate(sender, validator, coin),
@@ -923,6 +939,11 @@ impl Model {
             Some(c) => c.clone(),
             None => return Err(()),
         };
+        if code.kind == CodeKind::WrappedBare && matches!(entry, "sudo" | "reply" | "migrate") {
+            // the wrapper has no such entry point: the call fails before any contract code runs
+            self.fault("entry_point_missing");
+            return Err(());
+        }
         if entry == "instantiate" {
             if let Some(slot) = node.bind {
                 self.names.slots.insert(slot, contract.to_string());
@@ -962,6 +983,18 @@ impl Model {
                 }
                 WriteOp::Remove { k } => {
                     kv_after.remove(&names.key(k));
+                }
+                // remove + write back of the same value: no net change
+                WriteOp::Restore { .. } => {}
+                WriteOp::Bulk { tag, n } => {
+                    for i in 0..*n {
+                        kv_after.insert(crate::ops::bulk_key(*tag, i), vec![*tag, (i >> 8) as u8, i as u8, 1]);
+                    }
+                }
+                WriteOp::BulkRemove { tag, n } => {
+                    for i in 0..*n {
+                        kv_after.remove(&crate::ops::bulk_key(*tag, i));
+                    }
                 }
             }
         }
@@ -1079,6 +1112,14 @@ impl Model {
     }
 
     fn reply(&mut self, contract: &str, id: u64, info: ReplyInfo, depth: u32) -> Result<MResp, ()> {
+        let bare = self.s.contracts.get(contract).and_then(|c| self.codes.get(&c.code_id)).map(|c| c.kind == CodeKind::WrappedBare).unwrap_or(false);
+        if bare {
+            // no reply entry point: nothing runs (and no scripted reply is consumed); the failure is the
+            // dispatching call's
+            self.fault("entry_point_missing");
+            self.probe("reply_entry_point_missing");
+            return Err(());
+        }
         let node = match self.reply_plans.get_mut(&(contract.to_string(), id)) {
             Some(q) => q.pop_front().unwrap_or_default(),
             None => Node::default(),
